@@ -33,7 +33,9 @@ CONSTANTS NT,        \* thread labels 1..NT; every label is one thread generatio
           NO,        \* object places 1..NO (C++ variables holding a counter)
           MaxGen,    \* logical counters ever created (counter generations)
           TMin, TMax, \* extremes of the value type (maxer / miner)
-          StrictExt  \* TRUE: value() = strict comparison against an extreme-initialised result (pinned commit)
+          StrictExt, \* TRUE: value() = strict comparison against an extreme-initialised result (pinned commit)
+          Torn,      \* TRUE: split mode also separates the two plain stores (version, value) of a maxer/miner period switch
+          VerFirst   \* TRUE: on a period switch the slot's version is stored before its value (pinned commit)
 
 VARIABLES kind,      \* "adder" | "summer" | "maxer" | "miner" | "cetl" | "etl"
           npl,       \* instances per cache line (NUM_PER_CACHELINE); 1 for "etl"
@@ -83,7 +85,7 @@ NoStor   == [eid |-> 0, ens |-> FALSE, dead |-> FALSE, cell |-> [x \in {} |-> Ze
 NoObj    == [live |-> FALSE, lc |-> 0, iid |-> -1, st |-> 0, off |-> 0, ver |-> 0]
 NoAddr   == <<-1, -1, -1>>
 GZero    == [s |-> 0, n |-> 0, p |-> {}]
-NoPend   == [o |-> 0, v |-> 0, item |-> <<0, 0>>, wr |-> FALSE]
+NoPend   == [o |-> 0, v |-> 0, item |-> <<0, 0>>, wr |-> 0]     \* wr: 0 nothing stored yet, 1 first of two stores done, 2 stored
 ZeroT    == [t \in Thr |-> 0]
 NoRd     == [on |-> FALSE, fin |-> FALSE, o |-> 0, lc |-> 0, todo |-> {}, a |-> 0, b |-> 0, has |-> FALSE, lo |-> ZeroT, hi |-> ZeroT]
 NoEv     == [op |-> "", t |-> 0, o |-> 0, p |-> 0, v |-> 0]
@@ -112,19 +114,27 @@ ObjOf(lc) == CHOOSE o \in Obj : obj[o].live /\ obj[o].lc = lc
 LcLive(lc) == \E o \in Obj : obj[o].live /\ obj[o].lc = lc
 Quiescent == ~rd.on /\ \A t \in Thr : pend[t].o = 0
 
+\* initial values (a record, so that trace validation can re-initialise between executions)
+I0 == [tst |-> [t \in Thr |-> "new"], tid |-> [t \in Thr |-> -1],
+       alloc |-> [next |-> 0, free |-> <<>>],
+       obj |-> [o \in Obj |-> NoObj],
+       stor |-> [s \in St |-> [eid |-> 0, ens |-> FALSE, dead |-> FALSE, cell |-> [x \in {} |-> [a |-> 0, b |-> 0]]]],
+       cache |-> [t \in Thr |-> [eid |-> 0, item |-> <<0, 0>>]],
+       g |-> [lc \in Lcs |-> [t \in Thr |-> GZero]],
+       used |-> [lc \in Lcs |-> {}],
+       faddr |-> [lc \in Lcs |-> [t \in Thr |-> NoAddr]],
+       pend |-> [t \in Thr |-> NoPend],
+       cseq |-> [lc \in Lcs |-> [t \in Thr |-> <<>>]], cdone |-> [lc \in Lcs |-> ZeroT]]
+
 InitFor(k, n) ==
   /\ kind = k /\ npl = n
-  /\ tst = [t \in Thr |-> "new"] /\ tid = [t \in Thr |-> -1]
-  /\ talloc = [next |-> 0, free |-> <<>>] /\ ialloc = [next |-> 0, free |-> <<>>]
-  /\ obj = [o \in Obj |-> NoObj]
-  /\ stor = [s \in St |-> [eid |-> 0, ens |-> FALSE, dead |-> FALSE, cell |-> [x \in {} |-> [a |-> 0, b |-> 0]]]]
-  /\ cache = [t \in Thr |-> [eid |-> 0, item |-> <<0, 0>>]]
+  /\ tst = I0.tst /\ tid = I0.tid
+  /\ talloc = I0.alloc /\ ialloc = I0.alloc
+  /\ obj = I0.obj /\ stor = I0.stor /\ cache = I0.cache
   /\ nextEid = 1 /\ nextLc = 1
-  /\ g = [lc \in Lcs |-> [t \in Thr |-> GZero]]
-  /\ used = [lc \in Lcs |-> {}]
-  /\ faddr = [lc \in Lcs |-> [t \in Thr |-> NoAddr]]
-  /\ pend = [t \in Thr |-> NoPend] /\ rd = NoRd
-  /\ cseq = [lc \in Lcs |-> [t \in Thr |-> <<>>]] /\ cdone = [lc \in Lcs |-> ZeroT]
+  /\ g = I0.g /\ used = I0.used /\ faddr = I0.faddr
+  /\ pend = I0.pend /\ rd = NoRd
+  /\ cseq = I0.cseq /\ cdone = I0.cdone
   /\ ev = NoEv
 
 \* ------------------------------------------------------------------ threads
@@ -278,13 +288,15 @@ ReadOp(name, o) ==
   /\ UNCHANGED <<kind, npl, impl, ghost, conc>>
 
 \* ------------------------------------------------------------------ what the reads return
-ValueOf(o) ==
+ValueOfS(o, strict) ==
   LET s == obj[o].st  f == obj[o].off  I == ScanAll(s)
   IN IF IsCmp
-     THEN LET J == {i \in I : CellAt(s, i, f).b = obj[o].ver /\ (~StrictExt \/ Better(CellAt(s, i, f).a, Ext))}
+     THEN LET J == {i \in I : CellAt(s, i, f).b = obj[o].ver /\ (~strict \/ Better(CellAt(s, i, f).a, Ext))}
               C == {CellAt(s, i, f).a : i \in J}
           IN [r1 |-> IF C = {} THEN 0 ELSE BestOf(C), r2 |-> 0, has |-> C # {}]
      ELSE [r1 |-> SumFn([i \in I |-> CellAt(s, i, f).a], I), r2 |-> SumFn([i \in I |-> CellAt(s, i, f).b], I), has |-> TRUE]
+
+ValueOf(o) == ValueOfS(o, StrictExt)
 
 CellsOf(o, I) == [i \in I |-> [a |-> CellAt(obj[o].st, i, obj[o].off).a, b |-> CellAt(obj[o].st, i, obj[o].off).b,
                                cur |-> IsCmp /\ CellAt(obj[o].st, i, obj[o].off).b = obj[o].ver]]
@@ -295,21 +307,31 @@ CountBegin(t, o, v) ==
   /\ LET L == Lookup(t, o)
      IN /\ LookupEffect(t, o, L)
         /\ stor' = Ensured(L, o)
-        /\ pend' = [pend EXCEPT ![t] = [o |-> o, v |-> v, item |-> L.item, wr |-> FALSE]]
+        /\ pend' = [pend EXCEPT ![t] = [o |-> o, v |-> v, item |-> L.item, wr |-> 0]]
   /\ g' = [g EXCEPT ![obj[o].lc][t] = GAdd(@, v)]
   /\ cseq' = [cseq EXCEPT ![obj[o].lc][t] = Append(@, v)]
   /\ ev' = [NoEv EXCEPT !.op = "cbeg", !.t = t, !.o = o, !.v = v]
   /\ UNCHANGED <<kind, npl, tst, ialloc, obj, nextEid, nextLc, rd, cdone>>
 
+\* the store(s) of a count.  `local = local + v` is one plain store of the single writer; the first count of a
+\* maxer/miner in a new period is TWO plain stores (local.version, local.value) between which a reader can look
 CountWrite(t) ==
-  /\ pend[t].o # 0 /\ ~pend[t].wr
-  /\ LET o == pend[t].o IN stor' = Written(stor, pend[t].item, obj[o].off, pend[t].v, obj[o].ver)
-  /\ pend' = [pend EXCEPT ![t].wr = TRUE]
+  /\ pend[t].o # 0 /\ pend[t].wr < 2
+  /\ LET o == pend[t].o
+         s == pend[t].item[1]  i == pend[t].item[2]  f == obj[o].off
+         c == CellAt(s, i, f)
+         switch == Torn /\ IsCmp /\ c.b # obj[o].ver /\ pend[t].wr = 0
+     IN IF switch
+        THEN /\ stor' = [stor EXCEPT ![s].cell = PutCell(@, i, f, IF VerFirst THEN [a |-> c.a, b |-> obj[o].ver] ELSE [a |-> pend[t].v, b |-> c.b])]
+             /\ pend' = [pend EXCEPT ![t].wr = 1]
+        ELSE /\ stor' = IF pend[t].wr = 1 THEN [stor EXCEPT ![s].cell = PutCell(@, i, f, [a |-> pend[t].v, b |-> obj[o].ver])]
+                        ELSE Written(stor, pend[t].item, f, pend[t].v, obj[o].ver)
+             /\ pend' = [pend EXCEPT ![t].wr = 2]
   /\ ev' = [NoEv EXCEPT !.op = "cwr", !.t = t]
   /\ UNCHANGED <<kind, npl, tst, tid, talloc, ialloc, obj, cache, nextEid, nextLc, ghost, rd, cseq, cdone>>
 
 CountEnd(t) ==
-  /\ pend[t].o # 0 /\ pend[t].wr
+  /\ pend[t].o # 0 /\ pend[t].wr = 2
   /\ cdone' = [cdone EXCEPT ![obj[pend[t].o].lc][t] = @ + 1]
   /\ pend' = [pend EXCEPT ![t] = NoPend]
   /\ ev' = [NoEv EXCEPT !.op = "cend", !.t = t]
@@ -358,6 +380,8 @@ ExtremeOK(lc, R) ==
               /\ R.has => R.r1 \in P
 \* the sub-class of periods in which nothing but the type's unfavourable extreme was recorded
 OnlyTypeExtreme(lc) == IsCmp /\ GTot(lc).p = {Ext}
+\* ... and the exact witness class of hypothesis H5: such a period reported as "no result"
+H5Witness(lc, R) == OnlyTypeExtreme(lc) /\ ~R.has /\ R.r1 = 0
 
 StartsAtZeroOK(R) == IF IsCmp THEN ~R.has /\ R.r1 = 0 ELSE R.r1 = 0 /\ R.r2 = 0
 
@@ -372,12 +396,19 @@ AliveOK(lc, V, slotfn) ==
   /\ V \subseteq {slotfn[t] : t \in {u \in Live : slotfn[u] # -1}}
   /\ {slotfn[t] : t \in used[lc] \cap Live} \subseteq V
 
+\* witness class of a defect of the pinned commit: for_each_alive (the non-const overload of EnumerableThreadLocal,
+\* and both overloads of CompactEnumerableThreadLocal, which forward to it) does not clip the live thread ids to the
+\* size of the instance's vector: on an instance no thread has touched yet, while a thread of the family is alive,
+\* it reads block pointers past the (empty) block table
+AliveUntouched(o, nc) == (nc \/ ~IsEtl) /\ ~stor[obj[o].st].ens /\ {i \in Slots : i < talloc.next} \ FreeIds(talloc) # {}
+
 \* address a returned to (t, lc), F = addresses returned before: same as before; nobody else (live thread,
 \* live counter) owns it
 StableOK(F, lc, t, a, none) == F[lc][t] = none \/ F[lc][t] = a
 PrivateOK(F, lc, t, a) ==
   \A lc2 \in Lcs, t2 \in Thr : (<<lc2, t2>> # <<lc, t>> /\ LcLive(lc2) /\ tst[t2] = "live") => F[lc2][t2] # a
 
+Max0(S) == IF S = {} THEN 0 ELSE CHOOSE x \in S : \A y \in S : y <= x
 RECURSIVE SeqSum(_)
 SeqSum(q) == IF q = <<>> THEN 0 ELSE Head(q) + SeqSum(Tail(q))
 Pre(q, k) == SubSeq(q, 1, k)
@@ -391,14 +422,13 @@ ReadBoundsOK(Q, lo, hi, R) ==
              IN IF P = {} THEN ~R.has ELSE R.has /\ R.r1 = BestOf(P)
         ELSE /\ R.r1 = SumFn([t \in Thr |-> SeqSum(Pre(Q[t], k[t]))], Thr)
              /\ IsSum => R.r2 = SumFn(k, Thr)
-Max0(S) == IF S = {} THEN 0 ELSE CHOOSE x \in S : \A y \in S : y <= x
 
 (***************************************************************************)
 (* The clauses on the model (obs := what the model computes).              *)
 (***************************************************************************)
 QuiescentExact == Quiescent => \A o \in LiveObj : QuiescentExactOK(obj[o].lc, ValueOf(o))
 ExtremeOfCurrentPeriod == Quiescent => \A o \in LiveObj : ExtremeOK(obj[o].lc, ValueOf(o))
-ExtremeExceptOnlyTypeExtreme == Quiescent => \A o \in LiveObj : OnlyTypeExtreme(obj[o].lc) \/ ExtremeOK(obj[o].lc, ValueOf(o))
+ExtremeExceptOnlyTypeExtreme == Quiescent => \A o \in LiveObj : H5Witness(obj[o].lc, ValueOf(o)) \/ ExtremeOK(obj[o].lc, ValueOf(o))
 ContributionsOfDeadThreadsKept ==
   Quiescent => \A o \in LiveObj : \A i \in ScanAll(obj[o].st) : DeadKeptOK(obj[o].lc, i, CellsOf(o, ScanAll(obj[o].st))[i], tid)
 ForEachCoversEverUsed == \A o \in LiveObj : CoversOK(obj[o].lc, ScanAll(obj[o].st), tid)
@@ -416,10 +446,10 @@ LocalIsPrivateAndStable ==
 ConcurrentReadBounds ==
   rd.fin => ReadBoundsOK(cseq[rd.lc], rd.lo, rd.hi, [r1 |-> IF IsCmp /\ ~rd.has THEN 0 ELSE rd.a, r2 |-> rd.b, has |-> rd.has])
 
-\* L2 sanity: a cache hit always denotes the thread's own slot in a storage that still exists
+\* L2 sanity: a cache hit always denotes the thread's own slot (entries of destroyed storages stay behind: their eid is never seen again)
 CacheSound ==
   \A t \in Live : \A s \in St :
-     (stor[s].eid # 0 /\ cache[t].eid = stor[s].eid) => (cache[t].item = <<s, tid[t]>> /\ ~stor[s].dead)
+     (stor[s].eid # 0 /\ ~stor[s].dead /\ cache[t].eid = stor[s].eid) => cache[t].item = <<s, tid[t]>>
 IdsSound ==
   /\ \A t1, t2 \in Live : (t1 # t2 /\ tid[t1] # -1) => tid[t1] # tid[t2]
   /\ \A o1, o2 \in LiveObj : o1 # o2 => (obj[o1].lc # obj[o2].lc /\ <<obj[o1].st, obj[o1].off>> # <<obj[o2].st, obj[o2].off>>)
